@@ -290,16 +290,17 @@ Qed.
 
 Lemma reject_recvmax cfg s h0 h1 ext len :
   hd_len h1 ext = (len, true) -> (c_maxframe cfg <? len) && (0 <? c_maxframe cfg) = false ->
-  c_isstream cfg = false -> 0 < c_recvmax cfg -> c_recvmax cfg < len + sum_len (w_rxq s) ->
+  c_isstream cfg = false -> 0 < c_recvmax cfg -> c_ctl_counts cfg || (N.land (hd_op h0) 8 =? 0) = true ->
+  c_recvmax cfg < len + sum_len (w_rxq s) ->
   is_fail (ws_header_done cfg s h0 h1 ext) s WS_CLOSE_TOO_BIG.
 Proof.
-  unfold is_fail, ws_header_done. intros -> H0 Hs H1 H2. cbn [negb]. rewrite H0, Hs.
+  unfold is_fail, ws_header_done, recvmax_exceeded. intros -> H0 Hs H1 Hc H2. cbn [negb]. rewrite H0, Hs, Hc.
   apply N.ltb_lt in H1, H2. rewrite H1, H2. reflexivity.
 Qed.
 
 Lemma reject_mask cfg s h0 h1 ext len :
   hd_len h1 ext = (len, true) -> (c_maxframe cfg <? len) && (0 <? c_maxframe cfg) = false ->
-  negb (c_isstream cfg) && (0 <? c_recvmax cfg) && (c_recvmax cfg <? len + sum_len (w_rxq s)) = false ->
+  recvmax_exceeded cfg s (hd_op h0) len = false ->
   hd_masked h1 = negb (c_server cfg) ->
   is_fail (ws_header_done cfg s h0 h1 ext) s WS_CLOSE_PROTOCOL_ERR.
 Proof.
@@ -435,13 +436,13 @@ Proof.
   symmetry. apply N.ltb_lt. apply N.eqb_neq in E. simpl. lia.
 Qed.
 
-Definition frame_admitted (cfg : ws_cfg) (s : ws_state) (len : N) : Prop :=
+Definition frame_admitted (cfg : ws_cfg) (s : ws_state) (op len : N) : Prop :=
   (c_maxframe cfg <? len) && (0 <? c_maxframe cfg) = false /\
-  negb (c_isstream cfg) && (0 <? c_recvmax cfg) && (c_recvmax cfg <? len + sum_len (w_rxq s)) = false /\
+  recvmax_exceeded cfg s op len = false /\
   (len <? 126) || (len <=? c_allocmax cfg) = true.
 
 Lemma ws_header_done_ok cfg s h0 h1 ext len key :
-  hd_len h1 ext = (len, true) -> frame_admitted cfg s len -> hd_masked h1 = c_server cfg ->
+  hd_len h1 ext = (len, true) -> frame_admitted cfg s (hd_op h0) len -> hd_masked h1 = c_server cfg ->
   (hd_masked h1 = true -> hd_key h1 ext = key) ->
   ws_header_done cfg s h0 h1 ext =
     if len =? 0 then ws_frame_cb cfg s (hd_op h0) (hd_final h0) []
@@ -456,7 +457,7 @@ Qed.
 Lemma ws_feed_frame cfg s key op final payload :
   w_stage s = SHead -> op < 128 -> length key = 4%nat ->
   N.of_nat (length payload) < 2 ^ 64 ->
-  frame_admitted cfg s (N.of_nat (length payload)) ->
+  frame_admitted cfg s op (N.of_nat (length payload)) ->
   ws_feed cfg (mkD s []) (ws_encode (negb (c_server cfg)) key op final payload) =
     let '(s1, e1) := ws_frame_cb cfg s op final payload in (mkD s1 [], e1).
 Proof.
@@ -477,7 +478,7 @@ Proof.
       exists h0, h1, ext, payload. rewrite E, C. repeat split; auto; try (intros; discriminate). }
   destruct HD as (h0 & h1 & ext & data & E & A & B & C & D & F & G & Ld & Ud).
   rewrite E, ws_feed_app, (ws_feed_header cfg s h0 h1 ext Hs F).
-  rewrite (ws_header_done_ok cfg s h0 h1 ext len key D Hadm C G).
+  rewrite <- A in Hadm. rewrite (ws_header_done_ok cfg s h0 h1 ext len key D Hadm C G).
   rewrite A, B.
   destruct (len =? 0) eqn:Z.
   - apply N.eqb_eq in Z.
@@ -624,7 +625,7 @@ Fixpoint admitted_along (cfg : ws_cfg) (s : ws_state) (frs : list (N * bool * li
   | f :: r =>
       match w_stage s with
       | SHalt => True
-      | _ => frame_admitted cfg s (N.of_nat (length (fr_payload f))) /\
+      | _ => frame_admitted cfg s (fr_op f) (N.of_nat (length (fr_payload f))) /\
              admitted_along cfg (fst (ws_frame_cb cfg s (fr_op f) (fr_final f) (fr_payload f))) r
       end
   end.
@@ -665,8 +666,8 @@ Lemma admitted_unlimited cfg : c_maxframe cfg = 0 -> c_recvmax cfg = 0 -> forall
 Proof.
   intros M R. induction frs as [|f frs IH]; intros s H; cbn [admitted_along]; [exact I|].
   inversion H; subst.
-  assert (A: frame_admitted cfg s (N.of_nat (length (fr_payload f)))).
-  { unfold frame_admitted. rewrite M, R. change (0 <? 0) with false.
+  assert (A: frame_admitted cfg s (fr_op f) (N.of_nat (length (fr_payload f)))).
+  { unfold frame_admitted, recvmax_exceeded. rewrite M, R. change (0 <? 0) with false.
     rewrite !andb_false_r. cbn [andb]. split; [reflexivity|]. split; [reflexivity|].
     apply orb_true_iff. right. apply N.leb_le. assumption. }
   destruct (w_stage s); try exact I; (split; [exact A|apply IH; assumption]).
